@@ -311,6 +311,29 @@ var nears = [][]byte{
 	{0xD3, 0x00, 0x02, 0x43, 0x50}, {0xD3, 0x00, 0x13, 0x3E, 0xD0},
 }
 
+// MaybeLongJunk rarely returns a long run of 0xD3-free data: lengths around 4 KiB, 8 KiB, 16 KiB and
+// 64 KiB (about one draw in 60) or around 1 MiB (about one in 1500; each costs a tenth of a second).
+// The data is a short text pattern repeated, so that cases stay small when written out.  rapid favours
+// small integers, hence the comparisons with mid-range values.
+func MaybeLongJunk(t *rapid.T) []byte {
+	v := rapid.IntRange(0, 2999).Draw(t, "longJunk")
+	n := 0
+	switch {
+	case v >= 1500 && v < 1550:
+		n = rapid.SampledFrom([]int{4095, 4096, 4097, 8191, 8192, 8193, 16384, 16385, 65535, 65536, 65537}).Draw(t, "longJunkLen")
+	case v == 2222 || v == 1234:
+		n = 1<<20 + rapid.SampledFrom([]int{-1, 0, 1, 57}).Draw(t, "hugeJunkDelta")
+	default:
+		return nil
+	}
+	pat := []byte(rapid.SampledFrom([]string{"$GPGGA,123519,4807.038,N\r\n", "\x00", "\xb5\x62\x01\x07", "junk"}).Draw(t, "longJunkPattern"))
+	b := make([]byte, n)
+	for i := range b {
+		b[i] = pat[i%len(pat)]
+	}
+	return b
+}
+
 // Weights of the segment grammar.
 type Weights struct {
 	Valid, Junk, JunkD3, Corrupt, Truncated, Near, Raw int
@@ -326,6 +349,9 @@ func AnyStream(t *rapid.T, w Weights, maxSegs, maxLen int) Stream {
 	var s Stream
 	total := w.Valid + w.Junk + w.JunkD3 + w.Corrupt + w.Truncated + w.Near + w.Raw
 	for i := 0; i < n; i++ {
+		if lj := MaybeLongJunk(t); lj != nil {
+			s.Segs = append(s.Segs, Segment{Kind: "junk", Note: "long-run", Data: lj})
+		}
 		x := rapid.IntRange(0, total-1).Draw(t, "segKind")
 		switch {
 		case x < w.Valid:
@@ -371,6 +397,9 @@ func CleanStream(t *rapid.T, maxSegs, maxLen int, allowTail bool) Stream {
 	n := rapid.IntRange(1, maxSegs).Draw(t, "nSegs")
 	var s Stream
 	for i := 0; i < n; i++ {
+		if lj := MaybeLongJunk(t); lj != nil {
+			s.Segs = append(s.Segs, Segment{Kind: "junk", Note: "long-run", Data: lj})
+		}
 		if rapid.IntRange(0, 9).Draw(t, "isJunk") < 3 {
 			s.Segs = append(s.Segs, Segment{Kind: "junk", Data: Junk(t, false, 40)})
 		} else {
